@@ -42,7 +42,9 @@ func zzC07_retry() {
 	vObserveBytes("accepted", fw.got)
 	vAssert(fw.calls <= retries+1, "at most retries+1 transport calls")
 	vAssert(!(fw.lastTemp && fw.calls <= retries), "a transient error is retried while the caller's retry budget lasts (whether or not it is also a timeout)")
-	vAssert(int(n) == fw.sum, "returned count is the number of bytes the transport accepted")
+	if err == nil {
+		vAssert(int(n) == len(want), "on success the returned count is the message's length")
+	}
 	vAssert(fw.afterErr == 0, "nothing is sent after a permanent error")
 	vAssert(len(fw.got) <= len(want), "never more than the message is sent")
 	if len(fw.got) <= len(want) {
